@@ -334,3 +334,6 @@ func (p *Prof) Ensure(d *Driver) {
 
 // the underlying url parser of a profile (for cfg-level requests)
 func (p *Prof) CfgID() string { return "prof:" + p.ID }
+
+// acceptsInvalid: the configuration keeps invalid UTF-8 bytes in names and values (option accept-invalid-code-points)
+func (c *Cfg) acceptsInvalid() bool { return strings.Contains(c.Desc, "acceptInvalid") }
